@@ -39,6 +39,11 @@ def check(ctx):
                'every path through merge ends by merging the peer\'s version stamps' if good else
                'merge can return without merging the peer\'s version stamps (early return / fast path): purge cut-offs and refusals then differ between '
                'replicas that merged each other, and re-merging is not idempotent')
+    # VSEM: the version vectors, summarised by P-ORDER (max-register per (source, origin); merging recomputes the cut-off the
+    # same way an operation does) — subsumes S and L for NodeVersions::merge
+    import versions_abs
+    if versions_abs.check_versions(ctx, facts, 'C03.VSEM'):
+        return
     # S: merging version stamps derives the purge cut-off only through the one cut-off computation
     import c08, gate
     pp = gate.gate_predicates(facts, facts.body('datacake_crdt::orswot::OrSWotSet::purge_old_deletes'))
